@@ -201,13 +201,15 @@ _LIB = {"math.ceil": math.ceil, "math.floor": math.floor, "math.trunc": math.tru
         "operator.add": operator.add, "operator.sub": operator.sub, "operator.mul": operator.mul, "operator.floordiv": operator.floordiv, "operator.mod": operator.mod,
         "collections.deque": collections.deque, "itertools.chain": itertools.chain, "itertools.islice": itertools.islice, "itertools.cycle": itertools.cycle,
         "itertools.zip_longest": itertools.zip_longest, "itertools.chain.from_iterable": itertools.chain.from_iterable, "functools.reduce": functools.reduce,
+        "itertools.repeat": itertools.repeat, "itertools.accumulate": itertools.accumulate, "itertools.product": itertools.product, "itertools.count": itertools.count,
         "collections.OrderedDict": collections.OrderedDict, "collections.Counter": collections.Counter, "json.dumps": json.dumps, "json.loads": json.loads, "math.isclose": math.isclose,
-        "math.inf": math.inf, "math.fsum": math.fsum, "math.gcd": math.gcd, "operator.itemgetter": operator.itemgetter}
+        "math.inf": math.inf, "math.fsum": math.fsum, "math.gcd": math.gcd, "operator.itemgetter": operator.itemgetter, "operator.attrgetter": operator.attrgetter,
+        "collections.namedtuple": collections.namedtuple}
 _BUILTINS = {"int": int, "float": float, "str": str, "repr": repr, "round": round, "abs": abs, "min": min, "max": max, "bool": bool, "len": len, "sum": sum, "divmod": divmod, "range": range,
              "sorted": sorted, "list": list, "tuple": tuple, "dict": dict, "set": set, "frozenset": frozenset, "enumerate": enumerate, "zip": zip, "reversed": reversed, "any": any,
              "all": all, "bytes": bytes, "pow": pow, "True": True, "False": False, "None": None}
 _ITERATING = {list, tuple, set, frozenset, sorted, sum, enumerate, zip, any, all, min, max, reversed, dict, collections.deque, itertools.chain, itertools.islice, itertools.cycle,
-              itertools.zip_longest, itertools.chain.from_iterable, functools.reduce}
+              itertools.zip_longest, itertools.chain.from_iterable, functools.reduce, itertools.accumulate, itertools.product}
 _METHODS = {"append", "extend", "pop", "popleft", "appendleft", "extendleft", "insert", "remove", "clear", "copy", "get", "items", "keys", "values", "update", "setdefault", "join", "encode",
             "decode", "strip", "lstrip", "rstrip", "split", "rsplit", "splitlines", "startswith", "endswith", "format", "lower", "upper", "replace", "rotate", "index", "count", "sort", "reverse",
             "add", "discard", "union", "partition", "isdigit", "zfill", "bit_length", "is_integer", "popitem", "find", "title", "capitalize"}
@@ -270,6 +272,136 @@ def _has_yield(f) -> bool:
     return r
 
 
+# ---- record classes (typing.NamedTuple, collections.namedtuple(..), @dataclass): small value carriers a refactoring puts where a bare tuple / dict / hand-written __init__ was ----
+def _last(e) -> str:
+    """last component of the dotted name of an expression ('' if it has none)."""
+    return (dotted(e) or "").rsplit(".", 1)[-1]
+
+
+def _is_namedtuple_class(cls) -> bool:
+    return isinstance(cls, ast.ClassDef) and any(_last(b) == "NamedTuple" for b in cls.bases)
+
+
+def _dataclass_deco(cls):
+    """the @dataclass / @dataclasses.dataclass(..) decorator of a class, else None."""
+    for d in cls.decorator_list if isinstance(cls, ast.ClassDef) else []:
+        if _last(d.func if isinstance(d, ast.Call) else d) == "dataclass":
+            return d
+    return None
+
+
+def _class_fields(cls) -> list:
+    """[(name, default expression | None)] of the annotated class-level names of ONE class body, in order. The parse-time normalisation N7 turns `x: T = v` into `x = v`: whether a
+    plain class-level assignment was annotated is read from its source line."""
+    out = []
+    for st in cls.body:
+        if isinstance(st, ast.AnnAssign) and isinstance(st.target, ast.Name):
+            if "ClassVar" not in u(st.annotation):
+                out.append((st.target.id, st.value))
+        elif isinstance(st, ast.Assign) and len(st.targets) == 1 and isinstance(st.targets[0], ast.Name):
+            mod = getattr(st, "_module", None)
+            lines = mod.text.splitlines() if mod is not None else []
+            line = lines[st.lineno - 1].strip() if 0 < getattr(st, "lineno", 0) <= len(lines) else ""
+            head = line[len(st.targets[0].id):].lstrip() if line.startswith(st.targets[0].id) else ""
+            if head.startswith(":") and not head.startswith(":=") and "ClassVar" not in head.split("=", 1)[0]:
+                out.append((st.targets[0].id, st.value))
+    return out
+
+
+def _namedtuple_call_fields(e):
+    """field names of `namedtuple("N", ["a", "b"])` / `namedtuple("N", "a b")` / `NamedTuple("N", [("a", int), ..])`, else None."""
+    if not (isinstance(e, ast.Call) and _last(e.func) in ("namedtuple", "NamedTuple") and len(e.args) >= 2):
+        return None
+    try:
+        spec = ast.literal_eval(e.args[1])
+    except (ValueError, SyntaxError):
+        spec = None
+        if isinstance(e.args[1], (ast.List, ast.Tuple)) and all(isinstance(x, ast.Tuple) and x.elts and isinstance(x.elts[0], ast.Constant) for x in e.args[1].elts):
+            spec = [x.elts[0].value for x in e.args[1].elts]  # [("a", int), ..]: the types are names, not literals
+    if isinstance(spec, str):
+        spec = spec.replace(",", " ").split()
+    if isinstance(spec, (list, tuple)) and spec and all(isinstance(x, tuple) and x and isinstance(x[0], str) for x in spec):
+        spec = [x[0] for x in spec]
+    return list(spec) if isinstance(spec, (list, tuple)) and spec and all(isinstance(x, str) for x in spec) else None
+
+
+def _record_fields(mod, callee, tuples_only=True):
+    """field names, in order, of the record type a callee expression names in the module (a class deriving from NamedTuple, a name bound to namedtuple(..); with tuples_only=False
+    also a @dataclass), else None."""
+    nm = dotted(callee)
+    if nm is None or mod is None:
+        return None
+    d = mod.index().get(nm)
+    if isinstance(d, ast.ClassDef):
+        if _is_namedtuple_class(d) or (not tuples_only and _dataclass_deco(d) is not None and not any(isinstance(x, source.FUNC_TYPES) and x.name == "__init__" for x in d.body)
+                                       and all(_last(b) in ("object", "") for b in d.bases)):
+            return [f for f, _ in _class_fields(d)] or None
+        return None
+    return _namedtuple_call_fields(mod.module_constant(nm))
+
+
+def _record_call_elts(mod, v):
+    """the arguments of a call that constructs a tuple-like record of the module (positional and keyword arguments bound to the fields), in FIELD order: what a bare tuple display
+    would list. None when v is not such a call or does not supply every field."""
+    if not isinstance(v, ast.Call) or any(isinstance(a, ast.Starred) for a in v.args) or any(k.arg is None for k in v.keywords):
+        return None
+    fields = _record_fields(mod, v.func)
+    if fields is None or len(v.args) > len(fields):
+        return None
+    got = dict(zip(fields, v.args))
+    for k in v.keywords:
+        if k.arg not in fields or k.arg in got:
+            return None
+        got[k.arg] = k.value
+    return [got[f] for f in fields] if len(got) == len(fields) else None
+
+
+def _returned_elts(mod, f):
+    """the elements of the tuple a function returns with its single return statement - a tuple display or the construction of a tuple-like record - else None."""
+    r = [x for x in walk_body(f) if isinstance(x, ast.Return)]
+    if len(r) != 1 or r[0].value is None:
+        return None
+    return list(r[0].value.elts) if isinstance(r[0].value, ast.Tuple) else _record_call_elts(mod, r[0].value)
+
+
+def _returned_fields(mod, f):
+    """field names of the record a function returns with its single return statement (None for a bare tuple)."""
+    r = [x for x in walk_body(f) if isinstance(x, ast.Return)]
+    return _record_fields(mod, r[0].value.func) if len(r) == 1 and isinstance(r[0].value, ast.Call) else None
+
+
+def _selected_element(mod, callee, call):
+    """which element of the tuple that `callee` returns does the consumer of this call keep, and under which local name: (position, name) for `x = call(..)[1]` / `x = call(..).<field>`
+    (position normalised to 0..len-1 where the length is known), else None."""
+    p = source.parent(call)
+    pos = None
+    if isinstance(p, ast.Subscript) and p.value is call:
+        try:
+            pos = ast.literal_eval(p.slice)  # (-1 is a unary minus applied to 1)
+        except (ValueError, SyntaxError):
+            return None
+        if not isinstance(pos, int) or isinstance(pos, bool):
+            return None
+        n_ = len(_returned_elts(mod, callee) or [])
+        if pos < 0:
+            if not n_:
+                return None
+            pos += n_
+    elif isinstance(p, ast.Attribute) and p.value is call:
+        fields = _returned_fields(mod, callee)
+        if fields is None or p.attr not in fields:
+            return None
+        pos = fields.index(p.attr)
+    if pos is None:
+        return None
+    st = source.parent(p)
+    if isinstance(st, ast.Assign) and st.value is p and len(st.targets) == 1 and isinstance(st.targets[0], ast.Name):
+        return pos, st.targets[0].id
+    if isinstance(st, ast.AnnAssign) and st.value is p and isinstance(st.target, ast.Name):
+        return pos, st.target.id
+    return None
+
+
 class _M:
     """the evaluator. mod: the analysed module (its functions, classes and literal constants are visible by name); imports: alias -> dotted path; hooks: dotted callee text ->
     function(call node, env) for calls a rule interprets itself; ext: dotted path of an imported object -> stand-in value; env keys may be dotted texts ('self.total_bulks')
@@ -282,6 +414,8 @@ class _M:
         self._glob: dict = {}
         self._members: dict = {}
         self._handling: list = []
+        self._records: dict = {}  # id(class node of a NamedTuple class) -> the host namedtuple type that stands for it
+        self._record_nodes: dict = {}  # ... and back
         self.special = {"next": self.b_next, "iter": self.b_iter, "filter": self.b_filter, "map": self.b_map, "isinstance": self.b_isinstance, "hasattr": self.b_hasattr,
                         "getattr": self.b_getattr, "len": self.b_len}
         self.ext = dict(self.ext)
@@ -381,6 +515,79 @@ class _M:
                     return st, c
         return None, None
 
+    # -- record classes --------------------------------------------------------------------------------------------------------------------------------------------------
+    def fields_of(self, cls):
+        """[(field, default expression | None)] of a record class: the annotated class-level names, those of base classes first (a redefinition keeps its first position)."""
+        out: dict = {}
+        for c in reversed(self.mro(cls)):
+            for nm, dflt in _class_fields(c):
+                out[nm] = dflt
+        return list(out.items())
+
+    def record_type(self, cls):
+        """the host's named tuple type that stands for `class X(NamedTuple)` of the analysed module (same fields, same defaults)."""
+        t = self._records.get(id(cls))
+        if t is None:
+            fs = _class_fields(cls)
+            if not fs:
+                raise _Cannot(f"named tuple class {cls.name} without fields")
+            t = _guarded(collections.namedtuple, cls.name, [f for f, _ in fs], defaults=[self.val(v, {}) for _, v in fs if v is not None])
+            self._records[id(cls)] = t
+            self._record_nodes[t] = cls
+        return t
+
+    def dataclass_init(self, obj, cls, dc, args, kwargs):
+        """the constructor @dataclass writes for dc (the first dataclass in the MRO of cls): fields in order, positional or by keyword, defaults / default factories, then
+        __post_init__."""
+        deco = _dataclass_deco(dc)
+        if isinstance(deco, ast.Call) and any(k.arg in ("init", "kw_only", "slots") for k in deco.keywords):
+            raise _Cannot(f"@dataclass({', '.join(k.arg or '**' for k in deco.keywords)}) on {dc.name}")
+        takes = []
+        for nm, dflt in self.fields_of(dc):
+            spec = {k.arg: k.value for k in dflt.keywords} if isinstance(dflt, ast.Call) and _last(dflt.func) == "field" else None
+            if spec is not None and (not set(spec) <= {"default", "default_factory", "init", "repr", "compare", "hash", "metadata"} or "InitVar" in u(dflt)):
+                raise _Cannot(f"field `{nm}` of {dc.name}: {u(dflt)[:50]}")
+            in_init = spec is None or "init" not in spec or self.truth(self.val(spec["init"], {}))
+            takes.append((nm, dflt, spec, in_init))
+        own = [t_ for t_ in takes if t_[3]]
+        if len(args) > len(own):
+            raise _Raised("TypeError", f"{dc.name}() takes {len(own)} positional arguments but {len(args)} were given")
+        for i, (nm, dflt, spec, in_init) in enumerate(own):
+            if i < len(args) and nm in kwargs:
+                raise _Raised("TypeError", f"{dc.name}() got multiple values for argument '{nm}'")
+        pos = dict(zip([t_[0] for t_ in own], args))
+        for nm, dflt, spec, in_init in takes:
+            if in_init and nm in pos:
+                v = pos[nm]
+            elif in_init and nm in kwargs:
+                v = kwargs.pop(nm)
+            elif spec is not None and "default_factory" in spec:
+                v = self.apply(self.val(spec["default_factory"], {}), [], {})
+            elif spec is not None and "default" in spec:
+                v = self.val(spec["default"], {})
+            elif spec is None and dflt is not None:
+                v = self.val(dflt, {})
+            elif in_init:
+                raise _Raised("TypeError", f"{dc.name}() missing required argument '{nm}'")
+            else:
+                continue
+            obj.attrs[nm] = v
+        if kwargs:
+            raise _Raised("TypeError", f"{dc.name}() got an unexpected keyword argument '{next(iter(kwargs))}'")
+        post, owner = self.lookup(cls, "__post_init__")
+        if isinstance(post, source.FUNC_TYPES):
+            self.call_def(post, [obj], {}, owner)
+
+    def compares_by_value(self, cls) -> bool:
+        """== on instances of cls is not identity: the class (or a base) defines __eq__ or is a @dataclass that writes one."""
+        if self.lookup(cls, "__eq__")[0] is not None:
+            return True
+        for c in self.mro(cls):
+            d = _dataclass_deco(c)
+            if d is not None and not (isinstance(d, ast.Call) and any(k.arg == "eq" and source.is_const(k.value, False) for k in d.keywords)):
+                return True
+        return False
+
     @staticmethod
     def _decorated(f, what):
         return any((dotted(d) or "").rsplit(".", 1)[-1] == what for d in f.decorator_list)
@@ -416,11 +623,30 @@ class _M:
             d, owner = self.lookup(base.node, name)
             if isinstance(d, source.FUNC_TYPES):
                 return _Bound(base, _FnDef(d, owner)) if self._decorated(d, "classmethod") else _FnDef(d, owner)
+            if _is_namedtuple_class(base.node) and name in ("_fields", "_make", "_field_defaults"):
+                return getattr(self.record_type(base.node), name)
             if d is not None:
                 return self.val(d, {})
             raise _Cannot(f"attribute `{name}` of class {base.node.name}")
         if isinstance(base, _Ref):
             return self.ref(f"{base.path}.{name}")
+        if isinstance(base, tuple) and isinstance(getattr(base, "_fields", None), tuple):
+            # an instance of a named tuple: its fields, the tuple's own helpers, then whatever the analysed class defines next to the fields
+            if name in base._fields or name in ("_fields", "_asdict", "_replace", "index", "count"):
+                return getattr(base, name)
+            node = self._record_nodes.get(type(base))
+            d, owner = self.lookup(node, name) if node is not None else (None, None)
+            if isinstance(d, source.FUNC_TYPES):
+                if self._decorated(d, "property") or self._decorated(d, "cached_property"):
+                    return self.call_def(d, [base], {}, owner)
+                if self._decorated(d, "staticmethod"):
+                    return _FnDef(d, owner)
+                return _Bound(_Cls(node), _FnDef(d, owner)) if self._decorated(d, "classmethod") else _Bound(base, _FnDef(d, owner))
+            if d is not None:
+                return self.val(d, {})
+            if not name.startswith("__") and not hasattr(base, name) and (node is None or len(node.bases) == 1):
+                raise _Raised("AttributeError", f"'{type(base).__name__}' object has no attribute '{name}'")  # neither a field nor defined by the class: the evaluated program fails here
+            raise _Cannot(f"attribute `{name}` of a {type(base).__name__}")
         if isinstance(base, _CONTAINERS + _NUM) and name in _METHODS and hasattr(base, name):
             return getattr(base, name)
         raise _Cannot(f"attribute `{name}` of a {type(base).__name__}")
@@ -519,7 +745,8 @@ class _M:
         return _Gen([self.apply(f, list(xs), {}) for xs in zip(*[self.iterate(i) for i in its])])
 
     def b_isinstance(self, v, t):
-        ts = t if isinstance(t, tuple) else (t,)
+        ts = t if isinstance(t, tuple) and not hasattr(t, "_fields") else (t,)
+        ts = tuple(self.record_type(x.node) if isinstance(x, _Cls) and _is_namedtuple_class(x.node) else x for x in ts)
         if isinstance(v, _Obj):
             if v.cls is None:
                 raise _Cannot("isinstance() of a stand-in")
@@ -569,6 +796,13 @@ class _M:
                 if env[k] is _OPAQUE:
                     raise _Cannot(f"`{k}` has no representative value")
                 return env[k]
+            if k is not None and k.count(".") >= 2:
+                # a member of a library object reached through an imported module (`itertools.chain.from_iterable`): resolved as a whole path
+                head, rest = k.split(".", 1)
+                if head not in env and head in self.imports and (self.mod is None or head not in self.mod.index()):
+                    full = f"{self.imports[head]}.{rest}"
+                    if full in self.ext or full in _LIB:
+                        return self.ref(full)
             return self.getattr(self.val(e.value, env), e.attr)
         if t is ast.BinOp:
             a, b = self.val(e.left, env), self.val(e.right, env)
@@ -585,6 +819,8 @@ class _M:
                 return _guarded(operator.mod, a, b)
             if op in (ast.BitOr, ast.BitAnd, ast.Sub) and isinstance(a, (set, frozenset)) and isinstance(b, (set, frozenset)):
                 return {ast.BitOr: operator.or_, ast.BitAnd: operator.and_, ast.Sub: operator.sub}[op](a, b)
+            if op is ast.BitOr and isinstance(a, dict) and isinstance(b, dict):
+                return {**a, **b}  # dict union (a NEW dict: the operands stay as they are)
             if op in _ARITH and _plain(a) and _plain(b):
                 return _guarded(_ARITH[op], a, b)
             raise _Cannot(f"`{u(e)[:60]}`: operands {type(a).__name__}, {type(b).__name__}")
@@ -610,7 +846,7 @@ class _M:
                     raise _Cannot(f"`{u(e)[:60]}`")
                 if not isinstance(op, (ast.Is, ast.IsNot)):
                     for x in (left, right):
-                        if isinstance(x, _Obj) and x.cls is not None and self.lookup(x.cls, "__eq__")[0] is not None:
+                        if isinstance(x, _Obj) and x.cls is not None and self.compares_by_value(x.cls):
                             raise _Cannot(f"`{u(e)[:60]}`: user-defined comparison")
                 if isinstance(op, (ast.Lt, ast.LtE, ast.Gt, ast.GtE)) and not (_plain(left) and _plain(right)):
                     raise _Cannot(f"`{u(e)[:60]}`: ordering of {type(left).__name__}, {type(right).__name__}")
@@ -744,11 +980,19 @@ class _M:
         if isinstance(fv, _Cls):
             if any((dotted(b) or "").rsplit(".", 1)[-1] in ("Enum", "IntEnum", "Exception", "BaseException") for c in self.mro(fv.node) for b in c.bases):
                 raise _Cannot(f"instantiation of {fv.node.name}")
-            if any(c.decorator_list for c in self.mro(fv.node)):
+            if _is_namedtuple_class(fv.node):
+                # class X(NamedTuple): the value IS a tuple (it unpacks, compares and indexes like the bare tuple it replaced) whose elements also have names
+                if any(c.decorator_list for c in self.mro(fv.node)) or len(fv.node.bases) != 1:
+                    raise _Cannot(f"instantiation of the named tuple class {fv.node.name} (decorated / further base classes)")
+                return _guarded(self.record_type(fv.node), *args, **kwargs)
+            if any(d is not _dataclass_deco(c) for c in self.mro(fv.node) for d in c.decorator_list):
                 raise _Cannot(f"instantiation of the decorated class {fv.node.name}")
             obj = _Obj(fv.node, partial=False)
             f, owner = self.lookup(fv.node, "__init__")
-            if isinstance(f, source.FUNC_TYPES):
+            dc = next((c for c in self.mro(fv.node) if _dataclass_deco(c) is not None), None)
+            if dc is not None and (f is None or not any(c is owner for c in self.mro(fv.node)[:[i for i, c in enumerate(self.mro(fv.node)) if c is dc][0] + 1])):
+                self.dataclass_init(obj, fv.node, dc, list(args), dict(kwargs))  # @dataclass writes the constructor unless the class (or one before it in the MRO) has its own
+            elif isinstance(f, source.FUNC_TYPES):
                 self.call_def(f, [obj] + list(args), kwargs, owner)
             elif args or kwargs:
                 raise _Cannot(f"{fv.node.name}(..): constructor outside the module")
@@ -932,6 +1176,11 @@ class _M:
                 old = self.peek(s.target, env)
                 if isinstance(old, (list, collections.deque)) and isinstance(s.op, ast.Add):
                     old.extend(self.iterate(self.val(s.value, env)))  # in place, as the host language does it: other references see the new items
+                elif isinstance(old, (dict, set)) and isinstance(s.op, ast.BitOr):
+                    new = self.val(s.value, env)
+                    if not isinstance(new, type(old)) and not (isinstance(old, set) and isinstance(new, frozenset)):
+                        raise _Cannot(f"`{u(s)[:60]}`: operands {type(old).__name__}, {type(new).__name__}")
+                    old.update(new)  # in place as well
                 else:
                     self.assign(s.target, self.value_or_opaque(cur, env), env, keep)
             elif isinstance(s, ast.If):
@@ -1078,26 +1327,45 @@ def _own_params(f):
     return ps[1:] if ps and ps[0] in ("self", "cls") and not static else ps
 
 
-def _str_value(e, name):
-    """value of a file-name expression over one path parameter, evaluated for a sample path (None when it cannot be evaluated)."""
+def _str_value(e, name, mod=None, extra=None):
+    """value of a file-name expression over one path parameter, evaluated for a sample path (None when it cannot be evaluated). mod: the module the expression stands in - its
+    functions, classes and constants may take part in the computation (`cls.table_path(p)`, `p + SUFFIX`)."""
+    env = {name: _SAMPLE}
+    env.update(extra or {})
     try:
-        v = minieval.ev(e, {name: _SAMPLE})
-    except minieval.CannotEval:
+        v = _M(mod, None, None, None, budget=20000).val(e, env)
+    except (_Cannot, _Raised):
         return None
     return v if isinstance(v, str) else None
 
 
+def _deleted_path_expr(c):
+    """the expression naming the file a call deletes: os.remove(T) / os.unlink(T) / pathlib.Path(T).unlink(..), else None."""
+    d = dotted(c.func)
+    if d in ("os.remove", "os.unlink") and len(c.args) == 1:
+        return c.args[0]
+    if isinstance(c.func, ast.Attribute) and c.func.attr == "unlink" and isinstance(c.func.value, ast.Call) and _last(c.func.value.func) in ("Path", "PurePath") and len(c.func.value.args) == 1:
+        return c.func.value.args[0]
+    return None
+
+
 def _removed_files(io_, f, depth=0):
-    """names of the files an io function deletes for the sample data path (directly through os.remove / os.unlink or through another function of the module it hands its path to)."""
+    """names of the files an io function deletes for the sample data path (directly - os.remove / os.unlink / Path(..).unlink - or through another function of the module it hands
+    its path to); None among them: a deletion whose file name cannot be evaluated."""
     ps = _own_params(f)
     out = set()
     if len(ps) != 1 or depth > 3:
         return out
+    owner = source.enclosing_class(f)
+    extra = {"cls": _Cls(owner), "self": _Obj(owner)} if isinstance(owner, ast.ClassDef) else {}
     for c in source.calls_in(f):
         d = dotted(c.func)
-        if d in ("os.remove", "os.unlink") and len(c.args) == 1:
-            out.add(_str_value(c.args[0], ps[0]))
-        elif d is not None and len(c.args) == 1 and pat.is_(c.args[0], "V_p", binds={"p": ps[0]}):
+        t = _deleted_path_expr(c)
+        if t is not None:
+            out.add(_str_value(inline_node(t, {k: v for k, v in local_defs(f).items() if k not in ps}), ps[0], io_, extra))
+        elif d is not None and len(c.args) == 1 and not c.keywords and pat.is_(c.args[0], "V_p", binds={"p": ps[0]}):
+            if d.split(".", 1)[0] in ("cls", "self") and isinstance(owner, ast.ClassDef) and "." in d:
+                d = f"{owner.name}.{d.split('.', 1)[1]}"
             callee = io_.get(d, required=False)
             if isinstance(callee, source.FUNC_TYPES):
                 out |= _removed_files(io_, callee, depth + 1)
@@ -1107,14 +1375,29 @@ def _removed_files(io_, f, depth=0):
 def _stale_table_rule(chk, ldr, io_):
     """O3.10 (F25): O3.7 decides that a table is trusted on its modification time alone (valid iff it exists and is not older than the data file) and that a valid table is neither
     rebuilt nor counted. A data file that Rally itself (re)creates - decompressing an archive restores the ARCHIVED mtime, a download may do the same - can therefore meet the table of
-    its predecessor and look older than it. Necessary: whatever (re)creates the document file also removes an existing table of that file before the table is prepared."""
+    its predecessor and look older than it. Necessary: whatever (re)creates the document file also removes an existing table of that file before the table is prepared.
+
+    How it is decided (hardening round 3): 'no table of this file exists' is a FACT ESTABLISHED ALONG EDGES of a function's control-flow graph - the normal out-edges of a statement
+    that deletes the table (the io module's remover, os.remove / Path.unlink of the table's name, an own helper - method or module-level function - that establishes the fact for
+    the parameter the path is bound to on each of its normal paths) and the branch of a test that can only be taken when the table is absent (the test is EVALUATED in worlds
+    with and without the table file: `if os.path.exists(f"{p}.offset")`, a hoisted `stale = ...`, a guard clause `if not exists: return`, `Table.read_for_data_file(p).exists()`).
+    A (re)creation is in order when no normal path from it to the table preparation avoids those edges (or every path to it passes one and no preparation lies in between). File
+    names are compared as VALUES for a sample data path. Falsified only when every statement on the way that is handed the path is understood; a call of unknown effect that
+    receives the path makes the verdict 'not recognised'."""
     chk.rule("O3.10", "offset tables are only used with the file they were built from: the table's file name is the same for writer, reader and remover, and every statement of the corpus "
              "preparation that (re)creates the document file (decompress into it, download to a target that may be it) removes an existing offset table of that file on every normal "
              "path before the table is prepared", 4,
              "an updated corpus extracted from a tar archive keeps the archive's (older) mtime: the predecessor's table looks valid, the line count is not checked and every client whose "
              "slice starts beyond 50,000 lines seeks to the OLD file's offsets - documents ingested twice and never")
-    # the table's file name, as the factories of the table class compute it for a data file
-    FT = io_.cls("FileOffsetTable")
+    # ---- the io side: the table class, the table's file name as its factories compute it, the module's remover and preparer -------------------------------------------------
+    FT = io_.index().get("FileOffsetTable")
+    if not isinstance(FT, ast.ClassDef):
+        # role: the class whose factories (class methods returning cls(..)) create the table object for a data file
+        cands = [c for c in io_.classes() if sum(1 for m in io_.methods(c).values() if any(isinstance(x, ast.Return) and isinstance(x.value, ast.Call) and dotted(x.value.func) in ("cls", c.name)
+                                                                                              for x in walk_body(m))) >= 2]
+        if len(cands) != 1:
+            raise AnchorMissing(f"{_I}: the offset table class (FileOffsetTable) is not located")
+        FT = cands[0]
     finit = _meth(io_, FT, "__init__")
     opened = [c.args[0].attr for m in io_.methods(FT).values() for c in source.calls_in(m) if dotted(c.func) == "open" and c.args and is_self_attr(c.args[0])]
     tparam = [x.value.id for x in walk_body(finit) if isinstance(x, ast.Assign) and opened and is_self_attr(x.targets[0], opened[0]) and isinstance(x.value, ast.Name)]
@@ -1126,81 +1409,228 @@ def _stale_table_rule(chk, ldr, io_):
             a = bind_args(r.value, finit).get(tparam[0])
             ps = _own_params(m)
             if a is not None and len(ps) == 1:
-                names[m.name] = _str_value(a, ps[0])
-    rm = io_.get("remove_file_offset_table", required=False)
-    removed = _removed_files(io_, rm) if isinstance(rm, source.FUNC_TYPES) else set()
+                names[m.name] = _str_value(inline_node(a, {k: v for k, v in local_defs(m).items() if k not in ps}), ps[0], io_, {"cls": _Cls(FT)})
+    io_funcs = {f.name: f for f in io_.tree.body if isinstance(f, source.FUNC_TYPES)}
+    io_path = io_.modname
+
+    def io_callee(c, mod):
+        """the io module's function a call in `mod` names (through the module alias or a direct import), else None."""
+        d = dotted(c.func)
+        if d is None:
+            return None
+        head, _, rest = d.partition(".")
+        full = f"{mod.imports[head]}.{rest}" if rest and head in mod.imports else (mod.imports.get(d) if not rest else None)
+        if full is not None and full.startswith(io_path + ".") and full[len(io_path) + 1:] in io_funcs:
+            return io_funcs[full[len(io_path) + 1:]]
+        return None
+
+    rm = io_funcs.get("remove_file_offset_table")
+    prep = io_funcs.get("prepare_file_offset_table")
+    called_from_loader = {}
+    for c in [c for f in ldr.functions() for c in source.calls_in(f)]:
+        g_ = io_callee(c, ldr)
+        if g_ is not None:
+            called_from_loader[g_.name] = g_
+    if rm is None:
+        # role: the one-parameter io function the loader calls that deletes files whose names all evaluate (the preparer also deletes: its unfinished temporary table)
+        cands = [g_ for g_ in called_from_loader.values() if _removed_files(io_, g_) and None not in _removed_files(io_, g_)]
+        rm = cands[0] if len(cands) == 1 else None
+    if prep is None:
+        # role: the one-parameter io function the loader calls that writes the table (enters a table object as a context manager)
+        cands = [g_ for g_ in called_from_loader.values() if g_ is not rm and len(_own_params(g_)) == 1 and any(isinstance(x, ast.With) for x in walk_body(g_))
+                 and any(isinstance(x, ast.Name) and x.id == FT.name for x in ast.walk(g_))]
+        prep = cands[0] if len(cands) == 1 else None
+    removed = _removed_files(io_, rm) if rm is not None else set()
     table = next(iter(names.values()), None)
     # located and evaluated first (else: not recognised), compared second
     if len(names) < 2 or any(v is None for v in names.values()):
         raise AnchorMissing(f"FileOffsetTable: the factories that compute the table's file name for a data file (evaluated: {names})")
-    if not isinstance(rm, source.FUNC_TYPES) or not removed or None in removed:
+    if rm is None or not removed or None in removed:
         raise AnchorMissing(f"{_I}: the file(s) remove_file_offset_table() deletes for a data file (evaluated: {sorted(map(str, removed))})")
     ok = set(names.values()) == {table} and removed == {table}
     chk.ob("O3.10", "writer, reader and remover of the table use the same file name for a data file", ok, rm, f"factories: {names}; removed: {sorted(map(str, removed))}",
            key=f"{_I}:remove_file_offset_table:table-name")
-    if not isinstance(io_.get("prepare_file_offset_table", required=False), source.FUNC_TYPES):
+    if prep is None:
         raise AnchorMissing(f"{_I}: prepare_file_offset_table")
-    DP = ldr.cls("DocumentSetPreparator")
+    DP = ldr.index().get("DocumentSetPreparator")
+    if not isinstance(DP, ast.ClassDef):
+        # role: the class of the loader whose methods have the table prepared
+        cands = [c for c in ldr.classes() if any(io_callee(k_, ldr) is prep for m in ldr.methods(c).values() for k_ in source.calls_in(m))]
+        if len(cands) != 1:
+            raise AnchorMissing(f"{_L}: the class that prepares document sets (DocumentSetPreparator) is not located")
+        DP = cands[0]
     meths = ldr.methods(DP)
+    mod_funcs = {f.name: f for f in ldr.tree.body if isinstance(f, source.FUNC_TYPES)}
+    removers = {g_.name for g_ in io_funcs.values() if _removed_files(io_, g_) == {table}}  # io functions after which the table of their argument is gone (whatever they are called)
 
-    def io_call(c, fname):
-        """c is a call of the io module's function `fname` (through whatever alias the loader imports the module under)."""
-        return isinstance(c.func, ast.Attribute) and c.func.attr == fname and isinstance(c.func.value, ast.Name) and ldr.imports.get(c.func.value.id, "").endswith("utils.io")
+    def own_callee(c):
+        """the own helper a call names: a method of the preparator (self.m / cls.m / Class.m) or a module-level function of the loader, else None."""
+        f_ = c.func
+        if isinstance(f_, ast.Attribute) and isinstance(f_.value, ast.Name) and f_.value.id in ("self", "cls", DP.name) and f_.attr in meths:
+            return meths[f_.attr]
+        if isinstance(f_, ast.Name) and f_.id in mod_funcs:
+            return mod_funcs[f_.id]
+        return None
 
-    def logging_only(st):
-        return isinstance(st, ast.Expr) and isinstance(st.value, ast.Call) and any(isinstance(x, ast.Name) and x.id in ("logging", "logger") or isinstance(x, ast.Attribute) and x.attr == "logger"
-                                                                                    for x in ast.walk(st.value.func))
+    # ---- evaluation of file names and existence tests written in the loader: a machine over the loader whose view of the io module is a second machine over io, and whose file
+    # system is a set of existing paths the rule controls
+    world: set = set()
+    m_io = _M(io_, None, None, None, budget=200000)
 
-    def removals(f, x, depth=0):
-        """statements of f after which no offset table of the file named by the local / parameter x exists: a call of the io module's remover with x - alone or under a test that
-        this very table exists - or a call of an own method that does that with the parameter x is bound to on each of its normal paths."""
-        out = []
-        for st in walk_body(f):
-            if not (isinstance(st, ast.Expr) and isinstance(st.value, ast.Call)):
-                continue
-            c = st.value
-            direct = io_call(c, "remove_file_offset_table") and len(c.args) == 1 and pat.is_(c.args[0], "V_x", binds={"x": x}) and table is not None and removed == {table}
-            # ... or the table file itself is deleted (the helper of the io module inlined)
-            direct = direct or (dotted(c.func) in ("os.remove", "os.unlink") and len(c.args) == 1 and table is not None and _str_value(c.args[0], x) == table)
-            if direct:
-                p = source.parent(st)
-                t = p.test if isinstance(p, ast.If) and not p.orelse and [s_ for s_ in p.body if not logging_only(s_)] == [st] else None
-                if isinstance(t, ast.Call) and dotted(t.func) in ("os.path.exists", "os.path.isfile", "os.path.lexists") and len(t.args) == 1 and _str_value(t.args[0], x) == table:
-                    out.append(p)
-                else:
-                    out.append(st)
-            elif depth < 2 and isinstance(c.func, ast.Attribute) and isinstance(c.func.value, ast.Name) and c.func.value.id == "self" and c.func.attr in meths and meths[c.func.attr] is not f:
-                h = meths[c.func.attr]
-                q = [k_ for k_, v in bind_args(c, h).items() if pat.is_(v, "V_x", binds={"x": x})]
-                if len(q) == 1:
-                    inner = removals(h, q[0], depth + 1)
-                    gh = cfg_of(h)
-                    if inner and gh.must_pass(gh.entry, [gh.node_of(i_) for i_ in inner], normal_only=True):
-                        out.append(st)
+    def path_obj(*parts):
+        p = "/".join(str(x) for x in parts)
+        return _Obj(None, {"name": p.rsplit("/", 1)[-1]}, {"exists": _stub(lambda: p in world), "is_file": _stub(lambda: p in world), "__str__": _stub(lambda: p)}, f"path {p}")
+
+    fs = {"os.path.exists": _stub(lambda p: p in world), "os.path.isfile": _stub(lambda p: p in world), "os.path.lexists": _stub(lambda p: p in world),
+          "pathlib.Path": _stub(path_obj), "os.fspath": _stub(lambda p: p), "os.path.join": _stub(lambda *a: "/".join(a))}
+    m_io.ext.update(fs)
+    bridge = dict(fs)
+    for g_ in io_funcs.values():
+        bridge[f"{io_path}.{g_.name}"] = _stub(lambda *a, _g=g_, **k: m_io.apply(_FnDef(_g), list(a), k))
+    for c_ in [c_ for c_ in io_.tree.body if isinstance(c_, ast.ClassDef)]:
+        for mm in io_.methods(c_).values():
+            if any(_last(d) in ("classmethod", "staticmethod") for d in mm.decorator_list):
+                bridge[f"{io_path}.{c_.name}.{mm.name}"] = _stub(lambda *a, _c=c_, _n=mm.name, **k: m_io.apply(m_io.getattr(_Cls(_c), _n), list(a), k))
+    m_l = _M(ldr, None, None, bridge, budget=200000)
+
+    def definite(f, x):
+        """locals of f that hold the value of x whenever they are read: x itself and single-assignment locals bound to such a name."""
+        out, defs = {x}, local_defs(f)
+        for _ in range(4):
+            out |= {k_ for k_, v in defs.items() if isinstance(v, ast.Name) and v.id in out}
         return out
+
+    def may_alias(f, x):
+        """locals of f that MAY hold the value of x (`target_path = doc_path` in one arm)."""
+        return {x} | {t.id for st in walk_body(f) if isinstance(st, ast.Assign) and pat.is_(st.value, "V_x", binds={"x": x}) for t in st.targets if isinstance(t, ast.Name)}
+
+    def lvalue(f, e, x):
+        """value of a path expression written in f for the sample path (x and the locals that definitely hold it are the sample; other single-assignment locals are inlined)."""
+        dn = definite(f, x)
+        m_l.steps = m_io.steps = 0
+        try:
+            v = m_l.val(inline_node(e, {k_: v for k_, v in local_defs(f).items() if k_ not in dn}), {n_: _SAMPLE for n_ in dn})
+        except (_Cannot, _Raised):
+            return None
+        return v if isinstance(v, str) else None
+
+    def absent_branch(f, test, x):
+        """'true' / 'false': the branch of this test that is only taken when no table of x exists - the test is evaluated with the table present (with and without the data file:
+        the other branch is taken both times) and with the table absent (this branch is taken); None when the test says nothing of the kind or cannot be evaluated."""
+        dn = definite(f, x)
+        t = inline_node(test, {k_: v for k_, v in local_defs(f).items() if k_ not in dn})
+        got = []
+        for files in ({table, _SAMPLE}, {table}, {_SAMPLE}):
+            world.clear()
+            world.update(files)
+            m_l.steps = m_io.steps = 0
+            try:
+                got.append(bool(m_l.truth(m_l.val(t, {n_: _SAMPLE for n_ in dn}))))
+            except (_Cannot, _Raised):
+                return None
+        return {(True, True, False): "false", (False, False, True): "true"}.get(tuple(got))
+
+    est_cache: dict = {}
+
+    def establishing_edges(f, x, depth=0):
+        """edges of f's control-flow graph along which 'no offset table of the file named by x exists' is established."""
+        g = cfg_of(f)
+        dn = definite(f, x)
+        edges = []
+        for st in walk_body(f):
+            if isinstance(st, (ast.If, ast.While)):
+                br = absent_branch(f, st.test, x) if any(isinstance(n_, ast.Name) and n_.id in dn for n_ in ast.walk(inline_node(st.test, local_defs(f)))) else None
+                if br is not None:
+                    for tn in g.nodes_of(st):
+                        edges += [(tn.id, y, lab) for (y, lab) in g.succ[tn.id] if lab == br]
+                continue
+            c = st.value if isinstance(st, (ast.Expr, ast.Assign, ast.AnnAssign, ast.Return)) else None
+            c = c.value if isinstance(c, ast.Await) else c
+            if not isinstance(c, ast.Call):
+                continue
+            hit = False
+            t = _deleted_path_expr(c)
+            if t is not None:
+                hit = lvalue(f, t, x) == table
+            elif io_callee(c, ldr) is not None:
+                hit = io_callee(c, ldr).name in removers and len(c.args) + len(c.keywords) == 1 and isinstance((c.args + [k_.value for k_ in c.keywords])[0], ast.Name) \
+                    and (c.args + [k_.value for k_ in c.keywords])[0].id in dn
+            elif own_callee(c) is not None and own_callee(c) is not f and depth < 3:
+                h = own_callee(c)
+                hit = any(isinstance(v, ast.Name) and v.id in dn and establishes(h, q, depth + 1) for q, v in bind_args(c, h).items())
+            if hit:
+                for n_ in g.nodes_of(st):
+                    edges += [(n_.id, y, lab) for (y, lab) in g.succ[n_.id] if g.normal_edge(n_.id, y, lab)]
+        return edges
+
+    def establishes(h, q, depth=0):
+        """on every normal path through h, from its entry to its return, 'no offset table of the file named by parameter q exists' is established."""
+        ck = (id(h), q)
+        if ck not in est_cache:
+            est_cache[ck] = False  # (recursion)
+            gh = cfg_of(h)
+            ee = establishing_edges(h, q, depth)
+            est_cache[ck] = bool(ee) and gh.exit.id not in gh.reachable([gh.entry], avoid_edges=ee, edge_ok=gh.normal_edge)
+        return est_cache[ck]
 
     def collaborator_calls(f, names_):
         """(re)creation of a file: calls on a collaborator object (self.<attribute>.<method>: the decompressor, the downloader) that are handed one of the names as the place to write to."""
         return [c for c in source.calls_in(f) if isinstance(c.func, ast.Attribute) and is_self_attr(c.func.value)
                 and any(isinstance(a, ast.Name) and a.id in names_ for a in list(c.args) + [k_.value for k_ in c.keywords])]
 
-    # own methods that prepare the table of their path parameter
+    _PURE = ("os.path.", "logging.", "console.", "os.stat", "os.fspath", "io.basename", "io.dirname", "io.splitext")
+    _BUILTIN_PURE = {"len", "str", "repr", "format", "print", "isinstance", "bool", "type", "id", "hash"}
+
+    def opaque_calls(f, names_, depth=0, skip=()):
+        """calls in f that are handed the path (one of the names) and whose effect on the table the rule cannot tell."""
+        out = []
+        for c in source.calls_in(f):
+            args = list(c.args) + [k_.value for k_ in c.keywords]
+            if any(c is s_ for s_ in skip) or not any(isinstance(n_, ast.Name) and n_.id in names_ for a in args for n_ in ast.walk(a)):
+                continue
+            d = dotted(c.func) or ""
+            if _deleted_path_expr(c) is not None or isinstance(source.enclosing_stmt(c), ast.Raise) or _is_logging(c) or d.startswith(_PURE) or d in _BUILTIN_PURE:
+                continue
+            if isinstance(c.func, ast.Attribute) and isinstance(c.func.value, ast.Name) and c.func.value.id in names_ and c.func.attr in _METHODS:
+                continue  # a string method of the path itself
+            if source.enclosing(c, ast.Raise) is not None or _last(c.func) in ("Path", "PurePath"):
+                continue
+            g_ = io_callee(c, ldr)
+            if g_ is not None:
+                if g_ is prep or None not in _removed_files(io_, g_):
+                    continue  # an io function whose deletions are all evaluated: understood, whether or not it removes the table
+                out.append(c)
+                continue
+            h = own_callee(c)
+            if h is not None:
+                if depth < 2 and h is not f:
+                    for q, v in bind_args(c, h).items():
+                        if any(isinstance(n_, ast.Name) and n_.id in names_ for n_ in ast.walk(v)):
+                            out += opaque_calls(h, {q}, depth + 1)
+                continue
+            if any(c is k_ for k_ in collaborator_calls(f, names_)):
+                continue
+            out.append(c)
+        return out
+
+    # own helpers (methods / module-level functions) that prepare the table of their path parameter
     preparers = {}
-    for m in meths.values():
+    for m in list(meths.values()) + list(mod_funcs.values()):
         for c in source.calls_in(m):
-            if io_call(c, "prepare_file_offset_table") and c.args and isinstance(c.args[0], ast.Name) and c.args[0].id in _own_params(m):
-                preparers[m.name] = c.args[0].id
+            if io_callee(c, ldr) is prep and c.args and isinstance(c.args[0], ast.Name) and c.args[0].id in _own_params(m):
+                preparers[id(m)] = c.args[0].id
     n_sites = 0
     for m in meths.values():
-        if m.name in preparers:
+        if id(m) in preparers:
             continue
         # role: the document path of this method is what it hands to the table preparation
         psites = {}
         for c in source.calls_in(m):
             a = None
-            if isinstance(c.func, ast.Attribute) and isinstance(c.func.value, ast.Name) and c.func.value.id == "self" and c.func.attr in preparers:
-                a = bind_args(c, meths[c.func.attr]).get(preparers[c.func.attr])
-            elif io_call(c, "prepare_file_offset_table") and c.args:
+            h = own_callee(c)
+            if h is not None and id(h) in preparers:
+                a = bind_args(c, h).get(preparers[id(h)])
+            elif io_callee(c, ldr) is prep and c.args:
                 a = c.args[0]
             if a is not None:
                 if not isinstance(a, ast.Name):
@@ -1208,33 +1638,46 @@ def _stale_table_rule(chk, ldr, io_):
                 psites.setdefault(a.id, []).append(c)
         g = cfg_of(m) if psites else None
         for x, pcs in psites.items():
-            # locals that may hold the document path (`target_path = doc_path` in one arm)
-            alias = {x} | {t.id for st in walk_body(m) if isinstance(st, ast.Assign) and pat.is_(st.value, "V_x", binds={"x": x}) for t in st.targets if isinstance(t, ast.Name)}
+            alias = may_alias(m, x)
+            dn = definite(m, x)
             # (re)creation of the file: a call on a collaborator object (self.<attribute>.<method>: the decompressor, the downloader) that is handed the path as the place to write to
-            creators = [(c, f"{c.func.value.attr}.{c.func.attr}") for c in collaborator_calls(m, alias)]
-            # ... also when the (re)creation was extracted into an own helper method that is handed the path: the call of the helper is the creating statement, unless the helper
+            creators = [(c, f"{c.func.value.attr}.{c.func.attr}") for c in collaborator_calls(m, alias | dn)]
+            helper_opaque: dict = {}
+            # ... also when the (re)creation was extracted into an own helper that is handed the path: the call of the helper is the creating statement, unless the helper
             # itself removes the table after every (re)creation it performs
             for c in source.calls_in(m):
-                if is_self_attr(c.func) and c.func.attr in meths and c.func.attr not in preparers and meths[c.func.attr] is not m:
-                    h = meths[c.func.attr]
-                    for q in [k_ for k_, v in bind_args(c, h).items() if isinstance(v, ast.Name) and v.id in alias]:
-                        inner = collaborator_calls(h, {q})
-                        if inner:
-                            gh = cfg_of(h)
-                            hinv = [gh.node_of(i_) for i_ in removals(h, q, 1)]
-                            if not (hinv and all(gh.must_pass(gh.node_of(ic), hinv, normal_only=True) for ic in inner)):
-                                creators.append((c, f"{h.name}:{inner[0].func.value.attr}.{inner[0].func.attr}"))
-                            else:
-                                n_sites += 1
-                                chk.ob("O3.10", f"{m.name}: `{h.name}(..)` (re)creates the document file -> an existing offset table of it is removed before the table is prepared", True, c,
-                                       f"`{h.name}` removes the table after every (re)creation it performs", key=f"{_L}:{DP.name}.{m.name}:{h.name}:stale-offset-table")
-            inv = [g.node_of(i_) for i_ in removals(m, x)]
+                h = own_callee(c)
+                if h is None or id(h) in preparers or h is m:
+                    continue
+                b = bind_args(c, h)
+                q_alias = [k_ for k_, v in b.items() if isinstance(v, ast.Name) and v.id in alias | dn]
+                q_doc = [k_ for k_, v in b.items() if isinstance(v, ast.Name) and v.id in dn]
+                inner = collaborator_calls(h, set(q_alias))
+                if not inner:
+                    continue
+                gh = cfg_of(h)
+                hee = [e_ for q in q_doc for e_ in establishing_edges(h, q, 1)]
+                if hee and all(gh.exit.id not in gh.reachable([gh.node_of(ic)], avoid_edges=hee, edge_ok=gh.normal_edge) for ic in inner):
+                    n_sites += 1
+                    chk.ob("O3.10", f"{m.name}: `{h.name}(..)` (re)creates the document file -> an existing offset table of it is removed before the table is prepared", True, c,
+                           f"`{h.name}` removes the table after every (re)creation it performs", key=f"{_L}:{DP.name}.{m.name}:{h.name}:stale-offset-table")
+                else:
+                    creators.append((c, f"{h.name}:{inner[0].func.value.attr}.{inner[0].func.attr}"))
+                    helper_opaque[id(c)] = opaque_calls(h, set(q_alias), 1, skip=inner)
+            ee = establishing_edges(m, x)
             pn = [g.node_of(c) for c in pcs]
             for c, what in creators:
                 n_sites += 1
                 cn = g.node_of(c)
-                after = bool(inv) and g.must_pass(cn, inv, exits=pn, normal_only=True)
-                before = bool(inv) and g.dominated_by_nodes(cn, inv) and not any(g.path_exists(p_, cn, avoid=inv) for p_ in pn)
+                after = bool(ee) and not any(p_.id in g.reachable([cn], avoid_edges=ee, edge_ok=g.normal_edge) for p_ in pn)
+                before = bool(ee) and cn.id not in g.reachable([g.entry], avoid_edges=ee) and not any(cn.id in g.reachable([p_], avoid_edges=ee) for p_ in pn)
+                if not (after or before):
+                    unknown_effect = opaque_calls(m, alias | dn, skip=[k_ for k_, _ in creators] + list(pcs)) + helper_opaque.get(id(c), [])
+                    if unknown_effect:
+                        # not every statement that is handed the path is understood: the removal may be what one of them does - not recognised, not a finding
+                        chk.unknown("O3.10", f"{m.name}: no removal of the offset table is recognised between `{what}(..)` and the table preparation, but `{short(unknown_effect[0], 70)}` "
+                                             f"is handed the path and its effect on the table is not known", c)
+                        continue
                 chk.ob("O3.10", f"{m.name}: `{what}(..)` (re)creates the document file -> an existing offset table of it is removed before the table is prepared", after or before, c,
                        "" if after or before else f"a path from `{short(c, 70)}` reaches the table preparation with the predecessor's table in place",
                        key=f"{_L}:{DP.name}.{m.name}:{what}:stale-offset-table")
@@ -1746,6 +2189,9 @@ def run(chk):
     S, PB = pr.index().get("Slice"), pr.index().get("PartitionBulkIndexParamSource")
     # role: the slicing function is what the reader factory calls to get the triple it unpacks
     tc = _triple_call(cr) if cr is not None else None
+    if tc is None and cr is not None:
+        # ... or keeps as a record: a function of the module that returns three elements
+        tc = next((c for c in source.calls_in(cr) if fn_(last_attr(c.func) or "") is not None and len(_returned_elts(pr, fn_(last_attr(c.func))) or []) == 3), None)
     bf = fn_(last_attr(tc.func) or "") if tc is not None else None
     bf = bf if bf is not None else fn_("bounds")
     if bf is not None and len(params_of(bf)) == 5:
@@ -1814,10 +2260,12 @@ def run(chk):
             raise AnchorMissing(f"bounds(): five parameters expected, found {bp}")
         total, s, e, n, flag = bp
         defs = local_defs(bf)
-        ret = [x for x in walk_body(bf) if isinstance(x, ast.Return)]
-        if len(ret) != 1 or not isinstance(ret[0].value, ast.Tuple) or len(ret[0].value.elts) != 3:
+        # role: what the function hands back, element by element - a tuple display or the construction of a tuple-like record (NamedTuple class / namedtuple()) whose arguments,
+        # positional or by keyword, are put into FIELD order: positional consumers (`offset, docs, lines = bounds(..)`) see exactly that order
+        elts = _returned_elts(pr, bf)
+        if elts is None or len(elts) != 3:
             raise AnchorMissing("bounds() return tuple")
-        off_e, docs_e, lines_e = ret[0].value.elts
+        off_e, docs_e, lines_e = elts
 
         def unround(x):
             x = defs.get(x.id, x) if isinstance(x, ast.Name) else x
@@ -1921,6 +2369,20 @@ def run(chk):
                     ok = len(names_) == 3 and names_[1] in reads and names_[0] not in reads and names_[2] not in reads
                     NB_DOCS = names_[1] if ok and isinstance(st.targets[0].elts[1], ast.Name) else None
                 ob("O3.2", f"{f.name}: result unpacked as (offset, docs, lines)", ok, st, f"{names_}")
+            elif f is nb:
+                # ... or the counter selects the one element it needs: `n = bounds(..)[1]` / `n = bounds(..).<the field at position 1 of the record bounds() returns>`
+                sel = _selected_element(pr, bf, c)
+                if sel is not None:
+                    NB_DOCS = sel[1] if sel[0] == 1 else None
+                    ob("O3.2", f"{f.name}: result unpacked as (offset, docs, lines)", sel[0] == 1, source.enclosing_stmt(c),
+                       f"element {sel[0]} of {_returned_fields(pr, bf) or '(offset, docs, lines)'} is kept as `{sel[1]}`")
+            elif isinstance(st, ast.Assign) and st.value is c and len(st.targets) == 1 and isinstance(st.targets[0], ast.Name) and _returned_fields(pr, bf):
+                # ... or the factory keeps the record and reads its fields by name: the roles are the field positions
+                whole, fields_ = st.targets[0].id, _returned_fields(pr, bf)
+                rebinds = [x for x in walk_body(f) if isinstance(x, ast.Name) and isinstance(x.ctx, ast.Store) and x.id == whole]
+                ok = len(fields_) == 3 and len(rebinds) == 1
+                OFF, DOCS, LINES = [f"{whole}.{fl}" for fl in fields_] if ok else (None, None, None)
+                ob("O3.2", f"{f.name}: result unpacked as (offset, docs, lines)", ok, st, f"kept as `{whole}` with the fields {fields_}")
         need(create_default_reader=cdr)
         rc = [c for c in source.calls_in(cr) if u(c.func) == "create_reader"]
         crp = params_of(cr)
@@ -2300,7 +2762,7 @@ def run(chk):
             inc_ = [n for n in ast.walk(il[0]) if isinstance(n, ast.AugAssign) and isinstance(n.target, ast.Name)]
             fs_ = pat.fact_nodes(mk[0], stop=il[0]) if mk else None
             gs_ = [u(t) for t in fs_] if fs_ is not None else None
-            ok = len(mk) == 1 and len(ap_) == 1 and len(inc_) == 1 and DOCS is not None and len(fs_) == 1 and pat.is_(fs_[0], "V_d > 0", binds={"d": DOCS}) and isinstance(inc_[0].op, ast.Add) and source.is_const(inc_[0].value, 1) \
+            ok = len(mk) == 1 and len(ap_) == 1 and len(inc_) == 1 and DOCS is not None and len(fs_) == 1 and pat.is_(fs_[0], "E_d > 0", binds={"d": DOCS}) and isinstance(inc_[0].op, ast.Add) and source.is_const(inc_[0].value, 1) \
                 and _same_block(inc_[0], source.enclosing_stmt(ap_[0])) and _same_block(source.enclosing_stmt(mk[0]), source.enclosing_stmt(ap_[0]))
             if ok:
                 RQ, CNT = ap_[0].func.value.id, inc_[0].target.id
@@ -2508,6 +2970,26 @@ def run(chk):
 
 from sa.selftest import V  # noqa: E402
 
+# hardening round 3: text fragments shared by the record-type variants at the end of the list
+_R3_IMPORT = ("from typing import Callable, Deque\n", "from typing import Callable, Deque, NamedTuple\n")
+_R3_BOUNDS_DEF = "def bounds(total_docs, start_client_index, end_client_index, num_clients, includes_action_and_meta_data):\n"
+_R3_RECORD = "class ClientBounds(NamedTuple):\n    # the start offset (in lines) into the document file\n    offset_lines: int\n    # the number of documents\n    docs: int\n    # the number of lines\n    lines: int\n\n\n"
+_R3_RECORD_SWAPPED = "class ClientBounds(NamedTuple):\n    offset_lines: int\n    lines: int\n    docs: int\n\n\n"
+_R3_RETURN = ("    offset_lines = start_offset_docs * source_lines_per_doc\n    docs = end_offset_docs - start_offset_docs\n    lines = docs * source_lines_per_doc\n\n    return offset_lines, docs, lines\n",
+              "    docs = end_offset_docs - start_offset_docs\n\n    return ClientBounds(\n        offset_lines=start_offset_docs * source_lines_per_doc,\n        docs=docs,\n        lines=docs * source_lines_per_doc,\n    )\n")
+_R3_COUNTER = "            _, num_docs, _ = bounds(\n                docs.number_of_documents, start_partition_index, end_partition_index, total_partitions, docs.includes_action_and_meta_data\n            )\n"
+_R3_COUNTER_FIELD = "            num_docs = bounds(\n                docs.number_of_documents, start_partition_index, end_partition_index, total_partitions, docs.includes_action_and_meta_data\n            ).%s\n"
+_R3_FACTORY = ("            offset, num_docs, num_lines = bounds(\n                docs.number_of_documents, start_client_index, end_client_index, num_clients, docs.includes_action_and_meta_data\n            )\n"
+               "            if num_docs > 0:\n                reader: IndexDataReader = create_reader(\n"
+               "                    docs, offset, num_lines, num_docs, batch_size, bulk_size, id_conflicts, conflict_probability, on_conflict, recency\n                )\n")
+_R3_FACTORY_RECORD = ("            share = bounds(\n                docs.number_of_documents, start_client_index, end_client_index, num_clients, docs.includes_action_and_meta_data\n            )\n"
+                      "            if share.docs > 0:\n                reader: IndexDataReader = create_reader(\n"
+                      "                    docs, share.offset_lines, share.%s, share.%s, batch_size, bulk_size, id_conflicts, conflict_probability, on_conflict, recency\n                )\n")
+_R3_BATCH_APPEND = "                batch.append((docs_in_bulk, b\"\".join(bulk)))\n"
+_R3_BULK_LOOP = ("        for docs_in_bulk, bulk in batch:\n", "                \"body\": bulk,\n", "                \"bulk-size\": docs_in_bulk,\n")
+_R3_DATACLASS = ("from abc import ABC\n", "from abc import ABC\nfrom dataclasses import dataclass, field\n")
+_R3_BULK_CLASS = ("class IndexDataReader:\n", "@dataclass(frozen=True)\nclass Bulk:\n    docs: int\n    body: bytes = b\"\"\n    tags: list = field(default_factory=list)\n\n\nclass IndexDataReader:\n")
+
 VARIANTS = [
     V("docs computed directly", "break", _P, "    docs = end_offset_docs - start_offset_docs", "    docs = round(docs_per_client * (end_client_index - start_client_index + 1))", "O3.1"),
     V("end rounds differently", "break", _P, "    end_offset_docs = round(docs_per_client * (end_client_index + 1))", "    end_offset_docs = int(docs_per_client * (end_client_index + 1))", "O3.1"),
@@ -2714,4 +3196,29 @@ VARIANTS = [
       "                raise exceptions.RallyAssertionError(f\"Unknown action [{action}]\")\n            return action, templates[action] % doc_id\n"),
     V("r2: additive counter and log line in the slice reader", "keep", _P, "        self.current_line += len(lines)\n        if len(lines) == 0:",
       "        self.current_line += len(lines)\n        self.logger.debug(\"Read [%d] lines of %s.\", len(lines), self)\n        if len(lines) == 0:"),
+    # ---- hardening round 3: record types (typing.NamedTuple / collections.namedtuple / @dataclass) where a bare tuple was. The recognisers read a record construction in FIELD order
+    # and a field / index selection as the position it stands for; the evaluator instantiates the record classes of the module
+    [V("r3: bounds() returns a named tuple built by keyword, the counter reads its field", "keep", _P, *_R3_IMPORT),
+     V("", "keep", _P, _R3_BOUNDS_DEF, _R3_RECORD + _R3_BOUNDS_DEF), V("", "keep", _P, *_R3_RETURN), V("", "keep", _P, _R3_COUNTER, _R3_COUNTER_FIELD % "docs")],
+    [V("r3: named tuple declares lines before docs - positional consumers take the line count for the document count", "break", _P, *_R3_IMPORT, "O3"),
+     V("", "break", _P, _R3_BOUNDS_DEF, _R3_RECORD_SWAPPED + _R3_BOUNDS_DEF), V("", "break", _P, *_R3_RETURN), V("", "break", _P, _R3_COUNTER, _R3_COUNTER_FIELD % "docs")],
+    [V("r3: named tuple, the counter reads the line count instead of the document count", "break", _P, *_R3_IMPORT, "O3"),
+     V("", "break", _P, _R3_BOUNDS_DEF, _R3_RECORD + _R3_BOUNDS_DEF), V("", "break", _P, *_R3_RETURN), V("", "break", _P, _R3_COUNTER, _R3_COUNTER_FIELD % "lines")],
+    [V("r3: named tuple, telescoping broken inside the keyword construction (docs computed directly)", "break", _P, *_R3_IMPORT, "O3.1"),
+     V("", "break", _P, _R3_BOUNDS_DEF, _R3_RECORD + _R3_BOUNDS_DEF),
+     V("", "break", _P, _R3_RETURN[0], _R3_RETURN[1].replace("    docs = end_offset_docs - start_offset_docs\n", "    docs = round(docs_per_client * (end_client_index - start_client_index + 1))\n"))],
+    [V("r3: the reader factory keeps the record and reads its fields by name", "keep", _P, *_R3_IMPORT),
+     V("", "keep", _P, _R3_BOUNDS_DEF, _R3_RECORD + _R3_BOUNDS_DEF), V("", "keep", _P, *_R3_RETURN), V("", "keep", _P, _R3_FACTORY, _R3_FACTORY_RECORD % ("lines", "docs"))],
+    [V("r3: the reader factory reads the fields of the record in the wrong roles (documents as line limit)", "break", _P, *_R3_IMPORT, "O3"),
+     V("", "break", _P, _R3_BOUNDS_DEF, _R3_RECORD + _R3_BOUNDS_DEF), V("", "break", _P, *_R3_RETURN), V("", "break", _P, _R3_FACTORY, _R3_FACTORY_RECORD % ("docs", "lines"))],
+    [V("r3: collections.namedtuple for the slice, counter selects by index", "keep", _P, _R3_BOUNDS_DEF, "ClientBounds = collections.namedtuple(\"ClientBounds\", [\"offset_lines\", \"docs\", \"lines\"])\n\n\n" + _R3_BOUNDS_DEF),
+     V("", "keep", _P, "    return offset_lines, docs, lines\n", "    return ClientBounds(offset_lines, docs, lines)\n"), V("", "keep", _P, _R3_COUNTER, _R3_COUNTER_FIELD.replace(".%s", "[1]"))],
+    [V("r3: collections.namedtuple for the slice, counter selects the wrong index", "break", _P, _R3_BOUNDS_DEF, "ClientBounds = collections.namedtuple(\"ClientBounds\", [\"offset_lines\", \"docs\", \"lines\"])\n\n\n" + _R3_BOUNDS_DEF, "O3"),
+     V("", "break", _P, "    return offset_lines, docs, lines\n", "    return ClientBounds(offset_lines, docs, lines)\n"), V("", "break", _P, _R3_COUNTER, _R3_COUNTER_FIELD.replace(".%s", "[-1]"))],
+    [V("r3: bulks of a batch as frozen dataclass records (default, default factory) instead of pairs", "keep", _P, *_R3_DATACLASS), V("", "keep", _P, *_R3_BULK_CLASS),
+     V("", "keep", _P, _R3_BATCH_APPEND, "                batch.append(Bulk(docs_in_bulk, body=b\"\".join(bulk)))\n"), V("", "keep", _P, _R3_BULK_LOOP[0], "        for bulk in batch:\n"),
+     V("", "keep", _P, _R3_BULK_LOOP[1], "                \"body\": bulk.body,\n"), V("", "keep", _P, _R3_BULK_LOOP[2], "                \"bulk-size\": bulk.docs,\n")],
+    [V("r3: dataclass records for the bulks, the record counts lines instead of documents", "break", _P, *_R3_DATACLASS, "O3"), V("", "break", _P, *_R3_BULK_CLASS),
+     V("", "break", _P, _R3_BATCH_APPEND, "                batch.append(Bulk(len(bulk), body=b\"\".join(bulk)))\n"), V("", "break", _P, _R3_BULK_LOOP[0], "        for bulk in batch:\n"),
+     V("", "break", _P, _R3_BULK_LOOP[1], "                \"body\": bulk.body,\n"), V("", "break", _P, _R3_BULK_LOOP[2], "                \"bulk-size\": bulk.docs,\n")],
 ]
